@@ -36,6 +36,8 @@ def apply_pins(ep, args):
         ep.pin_opt(rx, alts)
     if args.get('import_callee'):
         ep.import_callee = True
+    if args.get('super_callee'):
+        ep.super_callee = True
     if args.get('concrete_enums'):
         ep.concrete_enums = tuple(args['concrete_enums'])
     if args.get('module_import'):
@@ -197,6 +199,12 @@ PRIVATE_Q = dict(scenario='block_expr', args=dict(policy=expr_profile([['Call', 
                  label='calls / sums over member chains whose links may be private names (`this.#x.substring(a)`, `this.#x.call(a)`, `a.#x.foo.call(a)`), printed inside a class method')
 for p in ('C02', 'C04', 'C12'):
     PLANS[p]['thorough'] = PLANS[p]['thorough'] + [PRIVATE_Q]
+
+# `this` and super() in a derived-class constructor: reading `this` before super() returns throws, so the two do not commute
+SUPER_Q = dict(scenario='block_expr', args=dict(policy=expr_profile([['Bin', 'Call', 'Tpl'], ['This', 'Call', 'Ident', 'Member'], ['This', 'Ident'], ['Ident']], max_args=(2, 0, 0, 0), names=['a'], props=['substring'], bin_ops=['Add'], spread=True, op_budget=4),
+                                                super_callee=True, wrapper=('class K extends a { constructor() { ', ' } }'),
+                                                config=[dict(src='plusOperator', dst=None, operator=True, awc=False), dict(src='tplOperator', dst=None, operator=True, awc=False), dict(src='substring', dst='stringSubstring', operator=False, awc=False)]),
+               label='operations over `this`, super(..) calls and identifiers (`this + super()`, `a.substring(this, super())`, `${this}${super()}`), printed inside a derived-class constructor')
 
 # reserved-prefix collision: identifiers may be named like an injected temporary
 COLLISION_Q = dict(scenario='program', args=dict(policy=stmt_profile([['Block', 'Decl:Fn'], ['Expr', 'Decl:Var', 'Decl:Fn'], ['Return']], [['Bin', 'Ident', 'Call'], ['Ident', 'Call'], ['Ident']], bin_ops=['Add'], names=['a', '__datadog_test_0'], params=(0, 1), block_lens=(1, 2), op_budget=2, all_present=True), kinds=('Script',)),
@@ -458,3 +466,8 @@ PLANS['C01']['thorough'] = PLANS['C01']['thorough'] + [PROTO3_Q]
 for p in ('C09', 'C12', 'C13'):
     PLANS[p]['quick'] = PLANS[p]['quick'] + [REWRITE_Q]
     PLANS[p]['thorough'] = PLANS[p]['thorough'] + [REWRITE_Q]
+
+PLANS['C01']['quick'] = PLANS['C01']['quick'] + [SUPER_Q]
+PLANS['C01']['thorough'] = PLANS['C01']['thorough'] + [SUPER_Q]
+for p in ('C02', 'C03'):
+    PLANS[p]['thorough'] = PLANS[p]['thorough'] + [SUPER_Q]
